@@ -256,7 +256,7 @@ void explore_c05() {
     bfs<>(3, states, trans, nontrivial);
     bfs<int>(maxobs, states, trans, nontrivial);
     bfs<const std::string &>(maxobs, states, trans, nontrivial);
-    bfs<std::string, int>(maxobs, states, trans, nontrivial);
+    bfs<std::string, int>(3, states, trans, nontrivial);      // by-value class arguments with three observers: what the last one receives must not depend on what happened to the others
     c05_reentrant_part();
     shm->validated = trans;
     sx::detail(fmt("breadth-first search to fixpoint per signature (void with up to 3 live observers; int, const std::string&, (std::string,int) with up to %d), 3 handle slots, ids rank-normalised in the state key; "
